@@ -416,10 +416,11 @@ func main() {
 		scenario{Name: "r2owa-i2rw-gap1-k1", SendOp: "r2owa", K: 1, Tight: 1},
 		scenario{Name: "r2owa-i2rw-gap2-k1", SendOp: "r2owa", K: 1, Tight: 2},
 		scenario{Name: "r2owa-i2rw-gap3-k1", SendOp: "r2owa", K: 1, Tight: 3},
+		// three consumers: the smallest fan-out with a consumer that is neither the first nor the last bonded input
+		scenario{Name: "r2owa-i2rw-k3", SendOp: "r2owa", K: 3},
 	)
 	if run.Thorough() {
 		scs = append(scs,
-			scenario{Name: "r2owa-i2rw-k3", SendOp: "r2owa", K: 3},
 			scenario{Name: "r2owa-i2rw-gap2-k2", SendOp: "r2owa", K: 2, Tight: 2},
 			scenario{Name: "r2owa-i2rw-gap4-k1", SendOp: "r2owa", K: 1, Tight: 4},
 			scenario{Name: "r2owa-i2rw-double-k2", SendOp: "r2owa", K: 2, Double: true},
